@@ -113,6 +113,19 @@ CLAIMED.update({
              "C10; interrupt handlers are wrapped in RuntimeError by the implementation (known finding candidate, C14).",
         technique="Coq proof (characterisation of failing supersteps and of the nested executor) + fault enumeration over nodes",
     ),
+    "C14": dict(
+        category="proof",
+        text="Theorems: a handler returning None makes the interrupt executor pause naming the node, its first output (the answer key) and "
+             "its first input's value; with the response present and the node not yet executed it passes without consulting the handler and "
+             "yields exactly what a handler returning that response yields; the asynchronous step runs the first ready interrupt alone "
+             "(one at a time); a pause inside a nested graph surfaces with the wrapper's name prefixed at every depth; the PAUSED result "
+             "carries the state before the interrupt's step. Tied to /repo by driving DAGs with 1-3 interrupts (siblings ready together, "
+             "self-answering handlers, falsy answers, nested) through complete pause/resume histories.",
+        design_ref="DESIGN.md section 5 C14",
+        note="partial: 'resume == handler returned the response' for whole runs is decided per generated history by the oracle (the "
+             "executor-level statement is proved); interrupts whose upstream-fed input has a default are not generated (DESIGN F-f).",
+        technique="Coq proof (interrupt executor / async isolation / nested pause path) + pause-resume history oracle",
+    ),
     "C16": dict(
         category="proof",
         text="Theorems: with entry points only active nodes are ever scheduled (every state); a returned key is a declared output (or a "
